@@ -11,8 +11,9 @@ import numpy as np
 import scipy.linalg as sla
 
 
-def replica(A, v, is_hermitian, exp_tol, norm_tol, kmax):
-    """returns (result, converged, happy_breakdown, iterations)"""
+def replica(A, v, is_hermitian, exp_tol, norm_tol, kmax, force_stop=None):
+    """returns (result, converged, happy_breakdown, iterations); with force_stop=k the stopping rule is replaced by "stop after iteration k"
+    and the value of the error estimate at that iteration is stored in replica.last_estimate"""
     v = np.asarray(v, dtype=complex).reshape(-1)
     n0 = np.linalg.norm(v)
     V = [v / n0]
@@ -38,7 +39,8 @@ def replica(A, v, is_hermitian, exp_tol, norm_tol, kmax):
         err1 = abs(expd[j + 1, 0])
         err2 = abs(expd[j + 2, 0] * n)
         err = err1 if err1 < err2 else (err1 * err2 / (err1 - err2))
-        if err < exp_tol:
+        replica.last_estimate = float(err)
+        if (force_stop is None and err < exp_tol) or (force_stop is not None and j + 1 == force_stop):
             res = n0 * sum(a * b for a, b in zip(expd[: len(V), 0], V))
             return res, True, False, j + 1
     res = n0 * sum(a * b for a, b in zip(expd[: len(V), 0], V))
@@ -51,8 +53,18 @@ def explained_by_pinned_algorithm(A, v, is_hermitian, exp_tol, norm_tol, kmax, g
         res, conv, happy, it = replica(np.asarray(A), v, is_hermitian, exp_tol, norm_tol, kmax)
     except Exception:
         return False
+    nv = np.linalg.norm(np.asarray(v).reshape(-1))
+    if conv and not happy and it != got_iterations and abs(it - got_iterations) <= 2:
+        # borderline estimate: with a large |A| the recurrence runs past the dimension of the invariant subspace and the estimate at the
+        # real stopping iteration sits within rounding of the tolerance, so the torch and numpy runs can stop one iteration apart. The real
+        # routine is still "the pinned algorithm" if, stopped at ITS iteration, the replica gives the same vector and an estimate <= 2*tol.
+        try:
+            res2, conv2, happy2, it2 = replica(np.asarray(A), v, is_hermitian, exp_tol, norm_tol, kmax, force_stop=got_iterations)
+        except Exception:
+            return False
+        return bool(conv2 and not happy2 and it2 == got_iterations and replica.last_estimate <= 2 * exp_tol
+                    and np.linalg.norm(res2 - np.asarray(got_result).reshape(-1)) <= (0.01 * exp_tol + 1e-13 + 1e-15 * np.linalg.norm(np.asarray(A), 2)) * nv)
     if not conv or happy or it != got_iterations:
         return False
-    nv = np.linalg.norm(np.asarray(v).reshape(-1))
     # the replica's vector must coincide with the real one far below the deviation being explained (> 10*tol)
     return bool(np.linalg.norm(res - np.asarray(got_result).reshape(-1)) <= (0.01 * exp_tol + 1e-13) * nv)
